@@ -49,7 +49,15 @@ def strategy(tier):
 
 
 def _ident(n):
-    return f"SPA{n:02x}:02:03:04:05:06".encode()
+    """spa identifiers: the usual SPAxx:.. form; some end in a byte that str.strip() would eat (space, NBSP, NEL) - an
+    identifier is an opaque byte string to the protocol"""
+    base = f"SPA{n:02x}:02:03:04:05:06".encode()
+    return base + {3: b"\xa0", 5: b" ", 6: b"\x85"}.get(n % 7, b"")
+
+
+def _port(n):
+    # most modules answer from the well-known port; one behind a port-forward does not
+    return 10022 if n % 5 != 2 else 40000 + n
 
 
 def _run_async(res, case):
@@ -65,7 +73,7 @@ def _run_async(res, case):
         except UnicodeEncodeError:
             raise InvalidCase(name)
         sim = vworld.make_simulator(identifier=_ident(n), name=name)
-        p = W.add_peer(sim)
+        p = W.add_peer(sim, (f"10.0.0.{50 + len(peers)}", _port(n)))
         p.reply_multiplicity = mult
         p.hello_latency = float(lat)
         peers.append(p)
@@ -111,10 +119,22 @@ def _run_async(res, case):
                        susp=susp_total[0], events=events, age_listed=loc.spas)
             await W.sleep(1.0)
             out["late_list"] = list(loc.spas or [])
+            out["alive_later"] = [t.get_name() for t in loc_tasks if not t.done()]
         finally:
-            await tm.gather()
+            # bounded: a helper task that swallows its cancellation must not hang the harness
+            g = asyncio.ensure_future(tm.gather())
+            await asyncio.wait([g], timeout=30.0)
+            if not g.done():
+                out["unkillable"] = sorted(t.get_name() for t in tm._tasks if not t.done())
+                g.cancel()
+                W.expect_leftover = True
 
     W.run(main)
+    if out.get("unkillable") or out.get("alive_later"):
+        names = out.get("unkillable") or out.get("alive_later")
+        res.fail(f"C15|helper-task-survives|{names[0]}", f"discovery returned but {names} keep running (1 s later / not even cancellable)")
+        if "t0" not in out:
+            return
     t0, t1 = out["t0"], out["t1"]
     dur = t1 - t0
     # two polling intervals (hello consumer, discovery loop) + the time the client's handler was suspended; every one of
